@@ -78,6 +78,8 @@ def check(run, replay=None):
             p = common.run_bin(binp, ["-test.run", "TestReplay", "-test.timeout", "30m"],
                                env=dict(VERIF_MODE="replay", VERIF_IN=inp, VERIF_OUT=outp, VERIF_LEVELS=c["levels"],
                                         VERIF_ORDER=c["order"]), timeout=2400)
+            if p.returncode != 0 and never_returned(run, outp, c):
+                continue
             if p.returncode != 0:
                 lib_panic = "panic:" in (p.stdout + p.stderr) and "skiplist" in (p.stdout + p.stderr)
                 if lib_panic:
@@ -94,6 +96,8 @@ def check(run, replay=None):
             env = dict(VERIF_MODE="random", VERIF_SEED=run.seed * 1000 + b, VERIF_OUT=outp,
                        VERIF_N=30 if thorough else 12, VERIF_OPS=1200 if thorough else 250, VERIF_KEYS=16 if thorough else 10)
             p = common.run_bin(binp, ["-test.run", "TestRandom"], env=env, timeout=1200)
+            if p.returncode != 0 and never_returned(run, outp, {"mode": "random", "env": env}):
+                continue
             if p.returncode != 0:
                 if "panic:" in (p.stdout + p.stderr):
                     run.violation({"kind": "panic"}, "skip list panicked in a random history", {"output": (p.stdout + p.stderr)[-3000:], "env": env})
@@ -101,6 +105,22 @@ def check(run, replay=None):
                 raise Infra("skipdrv random failed:\n" + (p.stdout + p.stderr)[-3000:])
             traces = [json.loads(l) for l in open(outp) if l.strip()]
             judge_traces(run, traces, d, "b%d" % b)
+
+
+def never_returned(run, outp, c):
+    """The harness's watchdog ended the process (status 3) because a map operation did not return: its finding is in the output."""
+    found = False
+    if os.path.exists(outp):
+        for l in open(outp):
+            try:
+                rec = json.loads(l)
+            except Exception:
+                continue
+            if rec.get("t") == "pviol" and rec.get("pred") == "Terminates":
+                run.violation({"kind": "Terminates"}, "skip list: after history %s the operation %s did not return (%s; keyspace %s)"
+                              % (json.dumps(rec.get("hist")), json.dumps(rec.get("last")), rec.get("got"), rec.get("space")), {"mode": "replay", "gen": c, "finding": rec})
+                found = True
+    return found
 
 
 def collect_replay(run, outp, c):
@@ -168,6 +188,15 @@ def do_replay(run, binp, path):
             t = pl["trace"]
             src = os.path.join(d, "script.json")
             raise Infra("trace replays are re-judged, not re-executed: run the check again with the same VERIF_SEED")
+        if pl["gen"].get("mode") == "random":
+            env = dict(pl["gen"]["env"], VERIF_OUT=os.path.join(d, "t.jsonl"))
+            p = common.run_bin(binp, ["-test.run", "TestRandom"], env=env, timeout=1200)
+            if p.returncode != 0 and never_returned(run, env["VERIF_OUT"], pl["gen"]):
+                return
+            if p.returncode != 0:
+                raise Infra(p.stdout + p.stderr)
+            judge_traces(run, [json.loads(l) for l in open(env["VERIF_OUT"]) if l.strip()], d, "rp")
+            return
         c = pl["gen"]
         f = pl["finding"]
         # a one-case replay: the history, with the failing transition as its only successor
@@ -179,6 +208,8 @@ def do_replay(run, binp, path):
                 fh.write(json.dumps(cs) + "\n")
         p = common.run_bin(binp, ["-test.run", "TestReplay"], env=dict(VERIF_MODE="replay", VERIF_IN=inp, VERIF_OUT=outp,
                            VERIF_LEVELS=c["levels"], VERIF_ORDER=c["order"]))
+        if p.returncode != 0 and never_returned(run, outp, c):
+            return
         if p.returncode != 0:
             raise Infra(p.stdout + p.stderr)
         collect_replay(run, outp, c)
